@@ -590,16 +590,23 @@ func main() {
 	for h := 1; h <= 3; h++ {
 		stores = append(stores, newStoreV1(fmt.Sprintf("v1-h%d", h), h))
 	}
+	stores = append(stores, newStoreV1("v1-h3-middle-destroyed", 4))
 	foreign := newStoreV1("v1-foreign", 1)
 	initSchemas()
 	for h := 1; h <= 3; h++ {
 		stores = append(stores, newStoreV2(fmt.Sprintf("v2-h%d", h), h, runtime.GOMAXPROCS(0)))
 	}
+	stores = append(stores, newStoreV2("v2-h3-middle-destroyed", 4, runtime.GOMAXPROCS(0)))
 	defer func() {
 		for _, s := range append(stores, foreign) {
 			s.close()
 		}
 	}()
+	for _, s := range stores {
+		if s.Broken != "" {
+			r.Violation("C15/"+s.Format+"/poison-key-history/records-of-live-keys-unreadable", s.Name+": "+s.Broken, map[string]string{"store": s.Name})
+		}
+	}
 	paths := allPaths()
 	byName := map[string]*store{foreign.Name: foreign}
 	for _, s := range stores {
